@@ -105,6 +105,38 @@ def rnd_table(rng, kind):
 
 KIND = {"m": "map", "f": "filter", "l": "flat", "o": "fmap"}
 
+# generator-side mirror of the type table: which kernel family a shape ends in (used only to
+# spread the generated programs evenly over the kernels, never for a verdict)
+_T = {
+    "Empty": {"m": "Map", "f": "Fil", "l": "FlatMap", "o": "FilterMap"},
+    "Map": {"m": "Map", "f": "MapFil", "l": "FlatMap", "o": "FilterMap"},
+    "Fil": {"m": "FilterMap", "f": "Fil", "l": "FlatMap", "o": "FilterMap"},
+    "MapFil": {"m": "FilterMap", "f": "MapFil", "l": "FlatMap", "o": "FilterMap"},
+    "FilterMap": {"m": "FilterMap", "f": "FilterMapFil", "l": "FlatMap", "o": "FilterMap"},
+    "FilterMapFil": {"m": "FilterMap", "f": "FilterMapFil", "l": "FlatMap", "o": "FilterMap"},
+    "FlatMap": {"m": "FlatMap", "f": "FlatMapFil", "l": "FlatMap", "o": "FilterMap"},
+    "FlatMapFil": {"m": "Map", "f": "FlatMapFil", "l": "FlatMap", "o": "FilterMap"},
+}
+FAMILY = {"Empty": "empty", "Map": "map", "Fil": "mapfil", "MapFil": "mapfil", "FilterMap": "filtermap",
+          "FilterMapFil": "filtermap", "FlatMap": "flatmap", "FlatMapFil": "flatmap"}
+
+
+def final_type(shape, start="Empty"):
+    ty = start
+    for c in shape:
+        ty = _T[ty][c]
+    return ty
+
+
+def shapes_by_family(maxlen, start="Empty"):
+    import itertools
+    fam = {}
+    for n in range(maxlen + 1):
+        for t in itertools.product("mflo", repeat=n):
+            sh = "".join(t)
+            fam.setdefault(FAMILY[final_type(sh, start)], []).append(sh)
+    return fam
+
 
 def gen_input(rng, src, n):
     xs = [rng.randrange(V) for _ in range(n)]
@@ -121,14 +153,19 @@ def gen_prog(rng, src=None, shape=None, n=None, term=None, nt="rand", cs="rand",
         n = rng.choice(sizes)
     ml = min(SRC_MAXLEN[src], maxlen)
     if shape is None:
-        ln = rng.choice([x for x in [0, 1, 1, 2, 2, 2, 3, 3, 3] if x <= ml])
-        shape = "".join(rng.choice("mflo") for _ in range(ln))
+        if rng.random() < 0.6:
+            # pick the kernel family first, then a shape that ends in it
+            fam = shapes_by_family(ml, "Map" if src in ("slice", "range") else "Empty")
+            shape = rng.choice(fam[rng.choice(sorted(fam))])
+        else:
+            ln = rng.choice([x for x in [0, 1, 1, 2, 2, 2, 3, 3, 3] if x <= ml])
+            shape = "".join(rng.choice("mflo") for _ in range(ln))
     stages = [rnd_table(rng, KIND[c]) for c in shape]
     # parameter ops
     if nt == "rand":
         nt = rng.choice([None, None, 1, 2, 2, 3, 3, 4, 5, 8, 32, 0])
     if cs == "rand":
-        c = rng.choice([None, None, ("cs", 1), ("cs", 2), ("cs", 2), ("cs", 3), ("cs", 5), ("cs", 64),
+        c = rng.choice([None, None, ("cs", 1), ("cs", 1), ("cs", 2), ("cs", 2), ("cs", 3), ("cs", 5), ("cs", 64),
                         ("csmin", 1), ("csmin", 2), ("csmin", 3), ("csmin", 64), ("cs", n + 1), ("cs", 0)])
     else:
         c = cs
@@ -172,6 +209,7 @@ def norm(p):
     t.setdefault("cap", 0)
     p.setdefault("cs", -1)
     p.setdefault("ck", 0)
+    p.setdefault("n", 0)
     return p
 
 
